@@ -314,7 +314,23 @@ pub fn families(prop: &str, tier: Tier) -> Vec<Cfg> {
             b.max_reqs = 2;
             b.dev = 0;
             b.drain = false;
-            vec![a, b]
+            // a fault hitting work that an earlier, cancelled operation left half done (resumed write or flush)
+            let mut c = Cfg::base("C11-fault-on-resumed-write-or-flush");
+            c.props = vec!["C11"];
+            c.ops = vec![OpK::Pub1, OpK::Sub, OpK::Poll, OpK::Drive, OpK::Disconnect];
+            c.io = IoMenu::faults_only();
+            c.io.write_partial = true;
+            c.io.all_partials_upto = 4;
+            c.io.write_pending = true;
+            c.io.flush_pending = true;
+            c.cancel = true;
+            c.broker.script = vec![inpub(1, 3)];
+            c.max_ops = if q { 5 } else { 6 };
+            c.max_conns = 1;
+            c.max_reqs = 2;
+            c.dev = if q { 2 } else { 3 };
+            c.drain = false;
+            vec![a, b, c]
         }
         "C12" => {
             let mut a = Cfg::base("C12-after-any-failure-or-cancellation");
@@ -332,6 +348,20 @@ pub fn families(prop: &str, tier: Tier) -> Vec<Cfg> {
             a.dev = if q { 2 } else { 3 };
             // arena-filling retained payloads, tiny to roomy buffers
             let mut v = vec![a];
+            // the inbound QoS 2 table exactly full (and one short of full) when the connection is lost
+            let mut t = Cfg::base("C12-inbound-qos2-table-full-at-connection-loss");
+            t.props = vec!["C12"];
+            t.ops = vec![OpK::Recv, OpK::DropConn];
+            t.io = IoMenu::benign();
+            t.broker.script = (1..=8).map(|i| inpub(2, i)).collect();
+            t.broker.script_burst = true;
+            t.broker.fifo = true;
+            t.broker.reorder_window = 1;
+            t.max_ops = if q { 11 } else { 12 };
+            t.max_conns = 2;
+            t.max_reqs = 0;
+            t.dev = 0;
+            v.push(t);
             for (tx, pay) in [(96usize, 80usize), (64, 40), (48, 30)] {
                 if q && tx != 96 {
                     continue;
@@ -566,7 +596,17 @@ pub fn families(prop: &str, tier: Tier) -> Vec<Cfg> {
             b.max_conns = if q { 3 } else { 4 };
             b.max_reqs = 2;
             b.dev = if q { 1 } else { 2 };
-            vec![a, b]
+            // identifiers straddling the 16-bit wrap
+            let mut c = Cfg::base("C18-status-across-identifier-wrap");
+            c.props = vec!["C18"];
+            c.start_pid = Some(65534);
+            c.ops = vec![OpK::Pub1, OpK::Pub2, OpK::Sub, OpK::Poll];
+            c.io = IoMenu::benign();
+            c.max_ops = if q { 8 } else { 9 };
+            c.max_conns = 1;
+            c.max_reqs = 4;
+            c.dev = 0;
+            vec![a, b, c]
         }
         _ => vec![],
     }
